@@ -285,6 +285,9 @@ class Body:
         return self.locals[l]["ty"]
 
 
+_KNOWN = None
+
+
 class Facts:
     def __init__(self, doc):
         self.doc = doc
@@ -304,6 +307,21 @@ class Facts:
         self.fns = {}
         for f in doc["fns"]:
             self.fns.setdefault(norm(f["path"]), f)
+
+    def is_new_helper(self, npath):
+        """A non-public function that did not exist on the pinned tree (engine/known_private.json): a helper
+        introduced by a later edit.  The engines inline such helpers instead of treating them as opaque."""
+        global _KNOWN
+        if _KNOWN is None:
+            try:
+                _KNOWN = set(json.load(open(os.path.join(os.path.dirname(os.path.abspath(__file__)), "known_private.json"))))
+            except Exception:
+                _KNOWN = set()
+        if not _KNOWN:
+            return False
+        base = npath.split("::{closure")[0]
+        d = self.fns.get(base)
+        return d is not None and d.get("vis") != "pub" and base not in _KNOWN
 
     def body(self, npath, required=True):
         """Unique body with this normalised path (generic args stripped)."""
